@@ -363,7 +363,7 @@ impl Property for C02 {
         vec![
             Phase::Random {
                 name: "recording-verifier",
-                cases: tier.pick(40_000, 800_000),
+                cases: tier.pick(40_000, 4_000_000),
                 strat: Arc::new(|| {
                     (
                         proptest::collection::vec(any::<u8>(), 0..24),
@@ -387,7 +387,7 @@ impl Property for C02 {
             },
             Phase::Random {
                 name: "appended-entries",
-                cases: tier.pick(6_000, 120_000),
+                cases: tier.pick(6_000, 600_000),
                 strat: Arc::new(move || {
                     (0..nb.max(1), prop_oneof![3 => proptest::sample::select(vec![tags::POSTIN, tags::PREIN, tags::VENDOR, tags::URL, tags::NAME, tags::PAYLOADCOMPRESSOR, 9999u32, 1u32 << 20]), 1 => any::<u32>()], proptest::collection::vec(any::<u8>(), 0..24), 0u8..3)
                         .prop_map(|(base, tag, data, mode)| C02Case::Appended { base, tag, data, mode })
@@ -396,7 +396,7 @@ impl Property for C02 {
             },
             Phase::Random {
                 name: "multi-byte-edits",
-                cases: tier.pick(20_000, 400_000),
+                cases: tier.pick(20_000, 2_000_000),
                 strat: Arc::new(move || {
                     (0..nb.max(1), proptest::collection::vec(crate::gen::mutate::mutation(), 1..4), prop_oneof![Just(3u8), Just(4u8), Just(6u8)], 0u8..3)
                         .prop_map(|(base, muts, region, mode)| C02Case::Mutated { base, muts, region, fixup: mode == 1, rebuild_sig: mode == 2 })
